@@ -216,6 +216,18 @@ def c13_b(ctx: Ctx):
                 out.append(ctx.inc(R, sjw, trees[0], f"copytree condition not recognised: {sorted(facts)}"))
         else:
             out.append(ctx.viol(R, sjw, lp, "source-only directories are never copied, even when recursive"))
+    # the tree copy used for new jobs / source-only directories copies everything
+    fp = ctx.fn("signac.sync:_FileModifyProxy.copytree")
+    for c in [x for x in body_nodes(fp) if isinstance(x, ast.Call) and common.ext_name(ctx, fp, x) == "shutil.copytree"]:
+        ig = kwarg(c, "ignore")
+        if ig is not None and not (isinstance(ig, ast.Constant) and ig.value is None):
+            out.append(ctx.viol(R, fp, c, f"the tree copy passes ignore={canon(ig)[:50]}: matching source entries of newly cloned jobs and source-only directories are silently not copied, "
+                                "so the destination is not a superset of the source"))
+        else:
+            out.append(ctx.ok(R, fp, c, "the tree copy has no built-in ignore filter"))
+    for n in body_nodes(fp):
+        if isinstance(n, ast.Call) and isinstance(n.func, ast.Attribute) and n.func.attr == "setdefault" and n.args and ctx.fold(n.args[0], fp) == "ignore":
+            out.append(ctx.viol(R, fp, n, "the tree copy installs a default ignore filter: matching source entries are silently not copied"))
     # common sub-directories are recursed into when recursive
     rec = [n for n in body_nodes(sjw) if isinstance(n, ast.Call) and SJW in common.targets_of(ctx, sjw, n)]
     if rec:
